@@ -197,6 +197,16 @@ func buildContainer(t tableCase, router string, order [][2]int, cell **obsCell) 
 				next.ServeHTTP(w, r.WithContext(context.WithValue(r.Context(), ctxKey{}, 1)))
 			})
 		}))
+	} else if withFilter && filterFlavour == 3 {
+		// a middleware that rewrites the URL of the request it passes on (http.StripPrefix does): the route was selected for,
+		// and its parameters stand for, the path the client asked for
+		c.Filter(restful.HttpMiddlewareHandlerToFilter(func(next http.Handler) http.Handler {
+			return http.HandlerFunc(func(w http.ResponseWriter, r *http.Request) {
+				r2 := r.Clone(r.Context())
+				r2.URL.Path = "/zz/rewritten/by/a/filter"
+				next.ServeHTTP(w, r2)
+			})
+		}))
 	} else if withFilter {
 		c.Filter(func(req *restful.Request, resp *restful.Response, chain *restful.FilterChain) {
 			chain.ProcessFilter(req, resp)
@@ -477,7 +487,7 @@ func runRoute(planPath, outPath string, seed int64) {
 			}
 		}
 		withFilter = ti%2 == 1
-		filterFlavour = 1 + (ti/2)%2
+		filterFlavour = 1 + (ti/2)%3
 		switchRouterFirst = (ti/4)%2 == 1
 		defaultRootDim = ti%3 != 0
 		swapDim := ti%2 == 0
